@@ -8,6 +8,7 @@ ATTR = [
  ("fix: produce(n) must not store tags", ["C12", "C02"]),
  ("fix: Delay panicked", ["C08", "C15"]),
  ("fix: Delay busy-looped", ["C09"]),
+ ("fix: Delay copied input samples before", ["C08", "C10"]),
  ("fix: RationalResampler output depended", ["C08", "C10"]),
  ("fix: AuDecode decoded the rest", ["C14"]),
  ("fix: AuDecode panicked", ["C15"]),
